@@ -70,12 +70,7 @@ def search(rng, tier, disagreeing):
 
 
 def classify(body, impl, verdict):
-    toks = body.split(" ; ", 1)[1].split(" ")
-    cfgs = [t[2:].split(",") for t in toks if t.startswith("B:")]
-    naming = cfgs[0][7].split(".")
-    # the directory the kill left: the first snapshot (taken right after CR)
-    snaps = [t for t in impl.split(" ") if t.startswith("s{")]
-    names = [e.split("=")[0] for e in snaps[0][2:snaps[0].index("}")].split(",") if e] if snaps else []
+    """no recorded finding is left for this property: every failure is reported"""
     return None
 
 
